@@ -403,37 +403,35 @@ def W.listSet (w : W) (name : String) : W × LR :=
         else ({ w with trace := ("L:" ++ name ++ ":p" ++ toString j) :: w.trace },
               .listed (parseMeta k) ((sortS k.members).take j.toNat) true)
 
+/-- What `resyncIPSet` does with the outcome of `ipset list <name>`; `true` = it returns an error. -/
+def Felix.applyList (c : Cfg) (F : Felix) (name : String) : LR → Felix × Bool
+  | .notFound => (F.onMissing name, false)
+  | .failNoOutput => ({ F with dp := F.dp.set name { Meta.zero with listFailed := true } }, true)
+  | .listed m ms failed =>
+    let F1 := if c.isTemp name then F
+      else ({ F with members := F.members.set name { F.tracker name with dp := ms.eraseDups } }).updateDirtiness name
+    ({ F1 with dp := F1.dp.set name { m with listFailed := failed } }, failed)
+
 /-- `resyncIPSet`; returns `true` when it returns an error. -/
 def W.resyncIPSet (w : W) (name : String) : W × Bool :=
-  let (w, r) := w.listSet name
-  match r with
-  | .notFound => ({ w with F := w.F.onMissing name }, false)
-  | .failNoOutput =>
-    ({ w with F := { w.F with dp := w.F.dp.set name { Meta.zero with listFailed := true } } }, true)
-  | .listed m ms failed =>
-    let F := w.F
-    let F := if w.cfg.isTemp name then F
-      else
-        let t := F.tracker name
-        ({ F with members := F.members.set name { t with dp := ms.eraseDups } }).updateDirtiness name
-    ({ w with F := { F with dp := F.dp.set name { m with listFailed := failed } } }, failed)
+  let p := w.listSet name
+  let q := p.1.F.applyList p.1.cfg name p.2
+  ({ p.1 with F := q.1 }, q.2)
+
+/-- One iteration of the loops of `drainResyncQueue`: re-list one set; a failure for a set that is
+desired is recorded and the set is re-queued at "must". -/
+def W.drainStep (acc : W × Bool) (name : String) : W × Bool :=
+  let r := acc.1.resyncIPSet name
+  if r.2 && r.1.F.desired.has name then ({ r.1 with F := r.1.F.qAdd name true }, true) else (r.1, acc.2)
 
 /-- `drainResyncQueue` with a clock that does not advance. -/
 def W.drain (w : W) : W × Bool :=
-  let must := sortS w.F.qMust
-  let w := { w with F := { w.F with qMust := [] } }
-  let step := fun (acc : W × Bool) (name : String) =>
-    let (w, failed) := acc
-    let (w, e) := w.resyncIPSet name
-    if e && w.F.desired.has name then ({ w with F := w.F.qAdd name true }, true) else (w, failed)
-  let (w, failed) := must.foldl step (w, false)
-  if w.F.fullReq then (w, failed)
+  let r := (sortS w.F.qMust).foldl W.drainStep ({ w with F := { w.F with qMust := [] } }, false)
+  if r.1.F.fullReq then r
   else
     -- background tier: popped one at a time; a failure re-queues at "must", so the loop
     -- only ever sees the entries that were in the tier at the start.
-    let bg := sortS w.F.qBg
-    let w := { w with F := { w.F with qBg := [] } }
-    bg.foldl step (w, failed)
+    (sortS r.1.F.qBg).foldl W.drainStep ({ r.1 with F := { r.1.F with qBg := [] } }, r.2)
 
 /-- What `beginFullResync` / `beginBackgroundResync` do with a successful listing. -/
 def Felix.afterListing (F : Felix) (listed : List String) (full : Bool) : Felix :=
@@ -615,5 +613,48 @@ def W.applyLoop : Nat → Nat → Bool → W → W × Bool
 def W.applyUpdates (w : W) : W × Bool :=
   let (w, ok) := W.applyLoop 10 0 false w
   if ok then (w, true) else ({ w with dead := true }, false)
+
+/-! ## Operations (the public API of `IPSets`, restart, and out-of-band kernel edits) -/
+
+inductive Op where
+  | add (setID type : String) (maxSize rangeMin rangeMax : Nat) (members : List String)
+  | rm (setID : String)
+  | addm (setID : String) (members : List String)
+  | delm (setID : String) (members : List String)
+  | filter (f : Option (List String))
+  | qresync
+  | restart
+  | apply (plan : Plan) (hintR : List (List String)) (hintD : List String)
+  | applydel (plan : Plan) (hintD : List String)
+  | kset (name : String) (k : KSet)
+  | kdel (name : String)
+  | kdrop (name : String) (k : Nat)
+
+def orDead (w : W) (F : Option Felix) : W :=
+  match F with
+  | some F => { w with F := F }
+  | none => { w with dead := true }
+
+/-- One operation; the Boolean is the operation's own result (`ApplyUpdates` succeeded /
+`ApplyDeletions` asks to be rescheduled; `true` otherwise). -/
+def W.stepOp (w : W) : Op → W × Bool
+  | .add id t ms a b mem => ({ w with F := w.F.addOrReplace w.cfg id ⟨t, ms, a, b, false, false⟩ mem }, true)
+  | .rm id => (orDead w (w.F.remove w.cfg id), true)
+  | .addm id mem => (orDead w (w.F.addMembers w.cfg id mem), true)
+  | .delm id mem => (orDead w (w.F.removeMembers w.cfg id mem), true)
+  | .filter f => ({ w with F := w.F.setFilter f }, true)
+  | .qresync => ({ w with F := { w.F with bgReq := true } }, true)
+  | .restart => ({ w with F := {}, sleeps := 0 }, true)
+  | .apply plan hr hd => ({ w with plan := plan, hintR := hr, hintD := hd, trace := [] } : W).applyUpdates
+  | .applydel plan hd => ({ w with plan := plan, hintR := [], hintD := hd, trace := [] } : W).applyDeletions
+  | .kset n k => ({ w with K := w.K.set n { k with members := k.members.eraseDups } }, true)
+  | .kdel n => ({ w with K := w.K.erase n }, true)
+  | .kdrop n k =>
+    match w.K.get n with
+    | some ks =>
+      let ms := sortS ks.members.eraseDups
+      if ms.isEmpty then (w, true)
+      else ({ w with K := w.K.set n { ks with members := sErase ks.members (ms.getD (k % ms.length) "") } }, true)
+    | none => (w, true)
 
 end CalicoVerif.C16
